@@ -85,7 +85,7 @@ def typedDictClassGuard : List BoolExpr := [.tt]
 
 /-- TypedDictFunction.jinja2 -/
 def typedDictFunction : List Rule := [
-  ⟨.typeHint, .tt, 8⟩
+  ⟨.typeHint, .tt, 13⟩
 ]
 
 /-- TypedDictFunction.jinja2: condition(s) under which the member loop is reached (exactly one loop expected) -/
